@@ -190,7 +190,7 @@ theorem wrapper_pack_in_txn_loses_blob :
     let s := run (init .wrap) [.mkTemp 1 [1], .begin 5, .storeBlob 7 1 0, .pack 9 [] false,
                                .vote, .finish]
     s.txn = none ∧ BlobRecIn s.hist (7, 5) ∧ aget s.files (7, 5) = none := by
-  refine ⟨by decide, ⟨⟨7, 5, .blob, 0, 5⟩, by decide, by decide, by decide⟩, by decide⟩
+  refine ⟨by decide, ⟨⟨7, 5, .blob, 0, 5, 0⟩, by decide, by decide, by decide⟩, by decide⟩
 
 /-- `_packNonUndoing` removes the blob file of a revision the base storage keeps: two revisions,
     pack time before both (MappingStorage drops nothing) — the record (7, 5) is still there, its file
@@ -201,7 +201,7 @@ theorem wrapper_nonundo_pack_removes_kept_blob :
     let s := next s0 (.pack 4 [] false)
     aget s0.files (7, 5) = some [1] ∧ BlobRecIn s.hist (7, 5) ∧ aget s.files (7, 5) = none ∧
     aget s.files (7, 6) = some [2] := by
-  refine ⟨by decide, ⟨⟨7, 5, .blob, 0, 5⟩, by decide, by decide, by decide⟩, by decide, by decide⟩
+  refine ⟨by decide, ⟨⟨7, 5, .blob, 0, 5, 0⟩, by decide, by decide, by decide⟩, by decide, by decide⟩
 
 /-! ### non-vacuity: concrete non-trivial histories meet the hypotheses -/
 
